@@ -60,6 +60,18 @@ CHECKS = {
                 technique="model-prover construction of adversarial-but-valid proofs + single-mutation enumeration, decided by an independent model verifier; total enumeration of the 2-byte header space for rangeproof_info",
                 text="Proofs are built by a Python prover that controls every free value (digit blinding factors, ring nonces, forged scalars 1..3) for exponent {0,1,18} x mantissa 0..8 (thorough 63, 64) x has_min x digit patterns covering every signer position, plus proofs that are valid only under a lenient header parser (exponent 19..31, reserved bit, min+max wrapping, 2^mantissa*10^exp overflow); each proof is presented as built and under every single mutation of a finite alphabet (each ring scalar <- s+n / 0 / n, e0, digit x <- x+p / off-curve / p, every sign and spare bit, header and mantissa bytes, trailing and truncated lengths, other commitment / generator / extra data, every single-bit flip for the small proofs); the model verifier's verdict and reported range must equal the library's. rangeproof_info is compared with the header specification on all 65536 (byte0, byte1) x 6 min_value x 8 lengths.",
                 note="Adversarial proofs use the forged-scalar alphabet {1,2,3} (+n); Borromean code is dead in the small-group builds, so there is no total enumeration over scalars."),
+    "C11": dict(level=MC, design="§4 C11",
+                technique="total parser enumeration over the count field + exhaustive pattern enumeration for initialisation (n <= 8) + single-mutation enumeration on model-built proofs, lock-step surjection / Borromean / CSPRNG reference models",
+                text="The parser is compared with the model on every n_inputs value 0..65535 x bitmap patterns x lengths (exactly-sized heap objects make overruns ASan-visible); initialise is run for n in 1..8 on every position/multiplicity pattern x subset size x seeds x iteration limits (and boundary patterns for n in {9,16,17,255,256}) with the SHA-256 CSPRNG model predicting bitmap, index and iteration count; generate->verify with blinding keys incl. 0 and n and input == output; model-built proofs with small forged scalars are accepted and their s+n / 0 re-encodings, altered tags, tag-count changes, empty bitmap (with e0 = H(msg)) and every bit flip (n <= 4) rejected; allocate_initialized / destroy keep the allocation ledger balanced.",
+                note="Above n = 8 surjection patterns are boundary choices, not all; hash challenges >= n are not constructible; Borromean code is dead in the small-group builds."),
+    "C16": dict(level=MC, design="§4 C16",
+                technique="exhaustive enumeration over key counts / signer indices / secret alphabets + single-mutation enumeration on library-made and model-built signatures, lock-step whitelist / Borromean reference models",
+                text="Key counts 0..8, 254, 255 (thorough +16, 64, 128) x every signer index x secrets {valid, 0, n} for the online and the summed key: sign -> verify -> model verifier -> round trip, honest signatures byte-compared with the model's deterministic derivation; parser over every count byte and length; every bit flip for n <= 4; each scalar replaced by 0 / n / s+n on model-built signatures with forged scalars 1..3 (accepted as built, rejected re-encoded); permuted / replaced keys, count mismatch, degenerate keys; the public-data forgery 00||SHA256(SHA256(ser33(W))) against an empty list (finding F1, fixed) stays as a permanent case.",
+                note="Key lists whose ring key is the point at infinity (needs W when choosing the online key) are only required to be rejected by verify; hash challenges >= n are not constructible."),
+    "C18": dict(level=MC, design="§4 C18",
+                technique="boundary-alphabet products + model-constructed exceptional-case families + total small-group ECDH enumeration, lock-step XSwiftEC / ECDH reference models",
+                text="ellswift_decode on an alphabet of 79 field values squared plus model-built inputs for every exceptional family (u^3+t^2+7 = 0 from u and from t, t = 0, u^3 = -8, X = 0) with all three x1/x2/x3 branches selected; the inverse map for every branch c in 0..7 incl. s = 0, r = 0, u = -2x; encode / create for every branch and both parities with decode(encode) = key; ECDH over SC x points x hash choices (default, sha256, custom copy, failing) and xdh for both roles x 4 hashes cross-checked against ECDH on the decoded keys; in the order-13 build ECDH, the x-only ladder and create/decode/xdh are enumerated totally (every secret encoding incl. overflow encodings x every point). Models are self-tested on the BIP-324 and Wycheproof vectors shipped in the tree.",
+                note="The ElligatorSwift map lives in the real field: alphabets and families only, the small groups do not make it enumerable. Encoding bytes are not part of the verdict (the header says they are not stable); decode(encoding) = key is."),
 }
 
 NOT_YET = "check not built yet in this round (work in progress; see DESIGN.md section 4 for the planned exploration)"
